@@ -658,7 +658,11 @@ def real_run(cfg, plan=(), seed=0, k=1, lr=0.05, numeric_hook=None, time_flag=Fa
         out = io.StringIO()
         with observe(nn_state, R, numeric=bool(numeric_hook), force=force), contextlib.redirect_stdout(out):
             try:
-                common.api_call(nn_state.fit, FIT_ORDER, kwargs, first=(data,))
+                # (what the caller asks for is the published default as often as not: k = 1, starting_epoch = 1,
+                # time = False, no separate negative batch size, the class's own learning rate)
+                common.api_call(nn_state.fit, FIT_ORDER, kwargs, first=(data,),
+                                defaults=dict(neg_batch_size=None, k=1, starting_epoch=1, time=False, epochs=100, pos_batch_size=100,
+                                              lr=1.0 if cfg["type"] == "density" else 1e-3))
             except UserAbort:           # the planned exception of a user callback left fit(), as it must
                 aborted = True
             except Exception as ex:     # reported by the caller, never swallowed silently
@@ -696,7 +700,7 @@ def real_run(cfg, plan=(), seed=0, k=1, lr=0.05, numeric_hook=None, time_flag=Fa
                    data_same=same and repr(data_rows) == data_before,
                    bases_same=(bases is None or bool((bases == bases_before).all())),
                    args_same=repr((kwargs.get("optimizer_args"), kwargs.get("scheduler_args"))) == args_before,
-                   nn_state=nn_state, numeric=R.numeric, lr_after=R.lr_after, stdout=out.getvalue(),
+                   nn_state=nn_state, numeric=R.numeric, lr_after=R.lr_after, stdout=out.getvalue(), time_flag=bool(time_flag),
                    loglines=R.loglines, tmpdir=tmpdir, nv=nv, R=R)
         if prev is not None and "_tmp" in prev:
             res["_tmp"] = prev["_tmp"]
